@@ -198,6 +198,10 @@ type VerifC30Params struct {
 	Action     int
 	Rekey      bool // after the first data exchange the Go side requests a re-key
 	NData      int  // application packets each way per phase
+	// FirstFollows: the scripted peer's first KEXINIT sets first_kex_packet_follows, lists a key
+	// exchange method first that the Go side does not have first (a wrong guess, RFC 4253 7.1)
+	// and sends one guessed packet right after its KEXINIT, which the Go side must discard.
+	FirstFollows bool
 }
 
 // VerifC30Result is the observation of one execution.
@@ -253,10 +257,25 @@ func (s *verifC30Peer) kex(first bool, otherInitPacket []byte) error {
 			}
 		}
 	}
+	follows := first && s.p.FirstFollows
+	if follows {
+		init.FirstKexFollows = true
+		init.KexAlgos = append([]string{"verif-guessed-kex@verif.invalid"}, init.KexAlgos...)
+	}
 	myPacket := Marshal(init)
 	s.fc.extra = func() []byte { return append([]byte(nil), myPacket...) }
 	if err := s.write(myPacket); err != nil {
 		return err
+	}
+	if follows {
+		// the guessed first packet of the method that was not agreed: a KEXDH_INIT/REPLY-numbered packet
+		guess := []byte{msgKexDHInit, 0, 0, 0, 3, 'g', 'u', 'e'}
+		if !s.isClient {
+			guess[0] = msgKexDHReply
+		}
+		if err := s.write(guess); err != nil {
+			return err
+		}
 	}
 	if otherInitPacket == nil {
 		var err error
